@@ -35,8 +35,12 @@ ORDERS = ["greedy", "MinFill", "MinNeighbors", "MinWeight", "WeightedMinFill", N
 
 
 def gen_query(rng, tier, virtual=False):
-    case = gen.rand_bn(rng, nmin=1, nmax=6 if tier == "quick" else 7, maxcard=3,
-                       name_kind="str" if virtual else rng.choice(["str", "word", "int", "int0"]))
+    if rng.random() < .06:
+        # 9-10 binary variables: scopes and elimination cliques with more than 8 positions
+        case = gen.rand_bn(rng, nmin=9, nmax=10, maxcard=2, name_kind="str" if virtual else rng.choice(["str", "word", "int", "int0"]))
+    else:
+        case = gen.rand_bn(rng, nmin=1, nmax=6 if tier == "quick" else 7, maxcard=3,
+                           name_kind="str" if virtual else rng.choice(["str", "word", "int", "int0"]))
     n = len(case["nodes"])
     nq = rng.randint(1, min(3, n))
     q = rng.sample(range(n), nq)
